@@ -155,8 +155,10 @@ def run(rep, info, model, tier, seed):
             bad.append("mutable objects survive connect() on the WebSocket object outside its configuration: %s" % ", ".join(extra))
         if not rebuilt:
             bad.append("connect() did not replace the per-connection state object")
-        for b in bad:
-            rep.violation(b, scenario=dict(kind="inventory", how="tools/regen.py gen_inventory: three scripted connections (compressed, reconnect on the same object, plain on a fresh object); the object graph and all class/module-level containers of lomond are compared before and after"), family="C17:inventory")
+        # a structural obligation (theorem C17_inventory over the regenerated lists), not a history on which the events differ:
+        # if the differential runs above found no such history, this is reported as "no failing input found"
+        if bad and not rep.violations:
+            rep.broken("theorem C17_inventory (props/C17.v) no longer holds of the regenerated inventory (tools/regen.py gen_inventory: three scripted connections -- compressed, reconnect on the same object, plain on a fresh object; the object graph and all class/module-level containers of lomond compared before and after): " + " ; ".join(bad))
         rep.families.append(dict(name="C17:inventory", cases=1, rule="object-graph walk from the WebSocket before/after a second connect(), and a snapshot of every mutable class attribute and module global of all lomond modules before/after three connections"))
     except Exception as e:
         rep.broken("the regenerated inventory could not be read: %r" % (e,))
